@@ -34,13 +34,19 @@ def xml_representable(text: str) -> bool:
     return True
 
 
-def strings_in(value: Any) -> List[str]:
+def strings_in(value: Any, pm: Any = None) -> List[str]:
     if isinstance(value, instances.Inst):
-        return [s for v in value.props.values() for s in strings_in(v)]
+        return [s for v in value.props.values() for s in strings_in(v, pm)]
     if isinstance(value, list):
-        return [s for v in value for s in strings_in(v)]
+        return [s for v in value for s in strings_in(v, pm)]
     if isinstance(value, str):
         return [value]
+    if isinstance(value, instances.EnumVal) and pm is not None:
+        # the text of an enumeration literal is written into the document as well
+        cls = pm.classes.get(value.enum)
+        for literal, text in (getattr(cls, "literals", None) or []):
+            if literal == value.literal and isinstance(text, str):
+                return [text]
     return []
 
 
@@ -308,7 +314,7 @@ def check_model(chk: harness.Check, name: str, text: str, rng, n_instances: int,
             chk.case(distinct_key=(name, cls, "json") if nested else None)
             # ---- XML round trip
             xml_text = None
-            representable = all(xml_representable(s) for s in strings_in(inst))
+            representable = all(xml_representable(s) for s in strings_in(inst, pm))
             if representable:
                 try:
                     xml_text = sdk.xmlization.to_str(obj)
